@@ -14,6 +14,7 @@ EXPLANATION = (
     "never written outside constructors — computed) and the structure-specific shape accessors. R06-other-untouched: `other` is "
     "&Self without interior mutability. R06-cuckoo-transfer / R06-quotient-transfer: the re-insertion loops pass every occupied "
     "slot of other with the bucket/remainder derived from the slot being visited."
+    ' R06-quotient-fifo: the local container of pending run quotients is a VecDeque used first-in first-out. Every returning path of the three cell-wise merges performs the combination (no shortcut return).'
 )
 NOT_DECIDED = ("that the quotient union's FIFO of pending run quotients reconstructs the right quotient for every cluster layout; "
                "that a cuckoo union returning Ok stored every fingerprint for every eviction outcome")
